@@ -2,6 +2,7 @@ import EsbuildModel.Impl.VlqBytes
 import EsbuildModel.Impl.Pieces
 import EsbuildModel.Impl.ToInt32
 import EsbuildModel.Impl.Compat
+import EsbuildModel.Impl.DataUrl
 
 open EsbuildModel
 
@@ -11,6 +12,7 @@ def dispatch (kernel : String) (args : List String) : String :=
   | "pieces" => Pieces.driver args
   | "toint32" => ToInt32.driver args
   | "compat" => Compat.driver args
+  | "dataurl" => DataUrl.driver args
   | _ => "bad-kernel"
 
 partial def loop (hin hout : IO.FS.Stream) : IO Unit := do
